@@ -15,7 +15,10 @@ agree on them):
 * a slice selects by the rules of the path evaluator: negative bounds count from the end, a start
   at or beyond the length selects nothing, step 0 selects nothing, an omitted end is the length;
   the ORDER in which an evaluator lists a slice or a union is irrelevant here (document order);
-* a descent selects the node itself and everything below it;
+* a descent selects the node itself and everything below it; the library's evaluators do the same
+  except that they do not enter a descent at a SCALAR that an earlier fragment reached (`$.a..` on
+  `{"a":1}` selects nothing, although `$..` on `1` selects `$` and `$.a..` on `{"a":[1]}` selects
+  `$.a[0]`); the specification does not copy that irregularity;
 * a filter is an abstract predicate on the candidate element; it is the LAST fragment of a target
   and applies to the elements of an array and to the member values of an object. -/
 namespace OjgVerif.Match
